@@ -37,7 +37,12 @@ func (f *BoolField) GenEncodeInto() (string, error) {
 }
 
 func (f *BoolField) GenReadFrom() (string, error) {
-	return "value." + f.name + " = true", nil
+	g := strErrBuf{}
+	g.printlnf("value.%s = true", f.name)
+	// The presence of the element is the value; whatever it declares as its
+	// content must still be consumed, or it would be parsed as the next TLVs.
+	g.printlnf("err = reader.Skip(int(l))")
+	return g.output()
 }
 
 func (f *BoolField) GenSkipProcess() (string, error) {
